@@ -22,7 +22,8 @@ TECHNIQUE = ("property-based testing (Hypothesis) of generator parameters with r
 LEVEL_TEXT = ("Generated parameter tuples (seed to 1e18, sizes 1-60, max reward 1-5000, loose probability across (0,1), "
               "force-down on/off) through gen_rnd_board and through the command-line main(); large boards for the "
               "frequency clause; every boundary pair of the eight parameter checks plus far-out, signed-zero, infinite "
-              "and NaN values enumerated. Exploration with an enumerated boundary core.")
+              "and NaN values enumerated. Exploration with an enumerated boundary core."
+              " Added while validating sensitivity: sequences of 2-4 command-line runs in ONE directory whose parameters often map to the same file name; each run's file must equal what the same parameters write into an empty directory.")
 LEVEL_NOTE = ("Trusted: binomial 7-sigma + 1 bound for the loose-tile count (false-alarm probability < 1e-11 per case). The "
               "one-in-2^53 event random.random() == 0.0 (reward max+1) is not reachable by search and not claimed.")
 RULE = ("case = ('board', parameters) | ('cli', parameters) | ('refuse', parameter overrides). Non-trivial = a boundary "
